@@ -86,7 +86,20 @@ def validate(sp, labels, precision, res, tmpdir):
         return
     fn = os.path.join(tmpdir, f"v{os.getpid()}.xml")
     try:
-        roundtrip.write(sc, pps, FMT, fn, precision)
+        if sum(map(ord, "".join(labels))) % 5 == 0:
+            # every fifth spec (fixed by its labels): the file is the SECOND thing the writer is asked to write - the first request names a directory
+            # that does not exist and fails.  Whatever a failed call leaves behind must not end up in the next file.
+            from commonroad.common.file_writer import CommonRoadFileWriter, OverwriteExistingFile
+            from commonroad.common.util import FileFormat
+            w = CommonRoadFileWriter(sc, pps, sc.author, sc.affiliation, sc.source, sc.tags, sc.location, decimal_precision=precision, file_format=FileFormat.XML)
+            try:
+                w.write_to_file(os.path.join(tmpdir, "no-such-directory", "x.xml"), OverwriteExistingFile.ALWAYS)
+            except Exception:
+                pass
+            w.write_to_file(fn, OverwriteExistingFile.ALWAYS)
+            case = dict(case, after_failed_write=True)
+        else:
+            roundtrip.write(sc, pps, FMT, fn, precision)
     except Exception as e:
         res.violation(f"C03|write|raises:{type(e).__name__}:{c02._san(e)}", f"{labels} d={precision}: {e!r}", case)
         return
